@@ -57,6 +57,10 @@ var directedCases = []directed{
 	{"undo-chain-blocked-by-wait", g3([][]int{{}, {1}, {2}}, [][]int{{0}, {0}, {0}}, allUndo), "E F1ok E F2ok E A F3ok E F3wait E E W3 E"},
 	// a do chain blocked by a task in Wait
 	{"do-chain-blocked-by-wait", g3([][]int{{}, {1}, {2}}, [][]int{{0}, {0}, {0}}, allUndo), "E F1wait E E W1 E"},
+	// a handler logs a transient/secondary ERROR line, retries, and later fails for good: Change.Err()
+	// must name the task with the error it finally failed with
+	{"err-after-logged-transient", g3(none, [][]int{{0}, {0}, {0}}, allUndo), "E F1logretry0 F2ok F3ok E F1err E"},
+	{"err-with-secondary-log", g3([][]int{{}, {1}, {}}, [][]int{{0}, {0}, {0}}, allUndo), "E F1ok F3ok E F2logerr E"},
 	// a manager flags a pending task as failed/held directly: its followers stay pending, they never start
 	// (the finished independent task comes first in task order: the other order is the known abort panic)
 	{"forced-error-followers-wait", g3([][]int{{}, {}, {2}}, [][]int{{0}, {0}, {0}}, allUndo), "XError2 E E F1ok E A E"},
@@ -91,10 +95,16 @@ func runDirected(d directed, id string, enc *json.Encoder) error {
 			if !running {
 				continue // the real engine did not have it in flight (a mutated tree may differ): skip
 			}
-			res := result{Res: a[2:], WS: "Done"}
-			if strings.HasPrefix(a[2:], "retry") {
+			spec := a[2:]
+			logErr := false
+			if strings.HasPrefix(spec, "log") {
+				logErr = true
+				spec = spec[3:]
+			}
+			res := result{Res: spec, WS: "Done", LogErr: logErr}
+			if strings.HasPrefix(spec, "retry") {
 				res.Res = "retry"
-				res.After, _ = strconv.Atoi(a[7:])
+				res.After, _ = strconv.Atoi(spec[5:])
 			}
 			if p.Status[t-1] == "Undoing" {
 				res.WS = "Undone"
